@@ -1,5 +1,19 @@
 from pyvc.runner import register_modules
 
-register_modules("C15", "bounded.C15_api")
-LEVEL = "exploration"
-ASSUMPTIONS = ["reference recogniser of the SML item grammar in bounded/C15_api.py", "bounded scope as stated in evidence.bounded"]
+register_modules("C15", "contracts.C15_sml", "bounded.C15_api")
+LEVEL = "other"
+EXPLANATION = ("(VC, z3) the recursive-descent reader of SML at the TOKEN level, for every token sequence (the tokens are a heap region of "
+               "symbolic size, each with a symbolic text): SMLParser.get_token / peek_token, Item._read_length, Item._read_items (any "
+               "sub-reader obeying the sub-reader contract), Item._read_item (dispatch over all registered type names, upper-casing of "
+               "a symbolic text over-approximated), the token loops of ItemNumber / ItemB / ItemBOOLEAN / ItemStr and Item.from_sml for "
+               "Item, L, U1, F4, A, B, BOOLEAN.  Proved: every loop consumes a token per iteration (variant = tokens left) and every "
+               "recursive call starts later: termination; a reader that returns has consumed a bracket-balanced segment ending in a '>' "
+               "token - an item is never returned for a segment with a missing closing bracket (the reader runs into the end of the "
+               "tokens and raises); otherwise an exception.  (BND) the tokenizer, the values read and the round trip of printed items.")
+ASSUMPTIONS = [
+    "the tokenizer (text -> tokens, SMLParser.parse_all) is not under contract: its termination and what counts as a bracket inside quotes are exercised by the bounded pass only",
+    "conversions of a token text (int(), float(), strip(), encode(), upper()) are over-approximated: they raise or yield SOME value; from Python's grammar of numeric literals only 'a text that converts is not empty and contains neither < nor >' is used",
+    "higher-order link: the sub-reader ItemL passes to _read_items is Item._read_sml_token -> _read_item, whose proved post-condition (ReadItem) contains the clauses SubParserAbs assumes; the link between the two contracts is by inspection of the clauses, not a generated obligation",
+    "the item constructors (validation of the values read) and SMLToken.exception are call-outs that do not touch the parser",
+    "reference recogniser of the SML item grammar in bounded/C15_api.py", "bounded scope as stated in evidence.bounded",
+]
